@@ -51,3 +51,32 @@ def slot_state_rule(ctx, rule="R19t"):
                "called only by %s" % caller.split("::")[-1] if ok else
                "`%s` is called by %s, expected only %s (tombstones may be dropped only during the full rebuild)" % (
                    callee_, sorted(ups), caller), "")
+
+
+def resize_rehash_rule(ctx, rule="R19u"):
+    """A capacity change re-places EVERY entry: whichever function calls MapData::resize on the table (grow, shrink) also
+    runs the full rebuild (rehash_values) on every success path.  `hash % capacity` changes with the capacity, and entries
+    stored wrapped around the old end keep a valid probe path only if everything is re-placed; a partial "fold the upper
+    half" leaves keys unreachable - in one of the two maps of a bidirectional map, which then disagree."""
+    fa = ctx.facts
+    n = 0
+    for b in fa.bodies.values():
+        if b.crate != "agdb" or not common.norm(b.npath).startswith(MM):
+            continue
+        rs = [i for i, t in cfg.calls(b) if (cfg.callee_decl(t) or cfg.callee(t) or "").endswith("MapData::resize")]
+        if not rs:
+            continue
+        n += 1
+        from lib import inline
+        v = inline.inlined(fa, b)
+        rs = [i for i, t in cfg.calls(v) if (cfg.callee_decl(t) or cfg.callee(t) or "").endswith("MapData::resize")]
+        rh = common.call_blocks_reaching(fa, v, [MM + "rehash_values"])
+        okb, errb, unk = cfg.ret_class_blocks(v)
+        targets = (okb + unk) or cfg.return_blocks(v)
+        p = cfg.find_path(v, [0], targets, avoid=rh) if rh else [0]
+        ctx.ob(rule, "%s:full-rebuild" % common.norm(b.npath).split("::")[-1], bool(rh) and p is None,
+               "every success path that changes the capacity runs rehash_values" if rh and p is None else
+               "`%s` can change the table's capacity without the full rebuild (rehash_values) on the path %s: entries whose "
+               "probe path depended on the old capacity become unreachable" % (common.norm(b.npath), cfg.path_str(v, p) if p else "-"),
+               b.where)
+    ctx.floor(rule, "functions that resize a hash table", n, 2)
